@@ -172,6 +172,6 @@ def outcome_class(out):
 
 
 def evidence_extra():
-    unm = sorted({f"{c.__name__}:{D.family(c)}" for c in D.CLASSES if D.family(c).startswith("unmodelled")})
+    unm = sorted({f"{c.__name__}:{D.FAM[c.__name__]}" for c in D.CLASSES if D.FAM[c.__name__].startswith("unmodelled")})
     return {"payload_evaluations": _stats["payloads"], "classes_covered": len(_stats["classes"]),
             "classes_total": len(D.CLASSES), "unmodelled_classes": unm}
